@@ -187,6 +187,7 @@ func plans(id, tier string) (Plan, bool) {
 			{Pkg: pkgV2, Harness: "c11_tokens", Shards: pick(8, 16)},
 			{Pkg: pkgV2, Harness: "c11_match", Params: "families=exact,scenario,recase" + map[bool]string{false: "", true: ",concat,edit1"}[th], Shards: 16},
 			{Pkg: pkgV2, Harness: "c11_match", Params: "families=window;split=4", Shards: 16},
+			{Pkg: pkgV2, Harness: "c11_match", Params: "families=exact,scenario,recase;shared=yes", Shards: 16},
 		}}, true
 	case "C12":
 		return Plan{Level: "exploration", Jobs: []Job{
